@@ -1,4 +1,4 @@
-// @unit id=v_go_away props=C15,C12,C08 tier=quick
+// @unit id=v_go_away props=C15,C09,C12,C08 tier=quick
 // Verus contracts on the real bodies of src/proto/go_away.rs (extracted on every run) and the monotonicity
 // lemma for C15: the last-stream-id of the GOAWAY frames an endpoint queues never increases.
 use vstd::prelude::*;
@@ -150,7 +150,7 @@ impl GoAway {
     //@spec         old(self).pending matches Some(f) ==> (match old(dst).next_ready() {
     //@spec             // back-pressure: the frame stays queued, nothing is written
     //@spec             Poll::Pending => r is Pending && final(self).pending == old(self).pending && final(dst).sent@ == old(dst).sent@,
-    //@spec             Poll::Ready(Err(e)) => r == Poll::<Option<Result<Reason, u8>>>::Ready(Some(Err(e))) && final(dst).sent@ == old(dst).sent@,
+    //@spec             Poll::Ready(Err(e)) => r == Poll::<Option<Result<Reason, u8>>>::Ready(Some(Err(e))) && final(dst).sent@ == old(dst).sent@ && final(self).pending is None,
     //@spec             // written exactly once, unmodified; its code is reported
     //@spec             Poll::Ready(Ok(_)) => r == Poll::<Option<Result<Reason, u8>>>::Ready(Some(Ok(f.error_code))) && final(self).pending is None && final(dst).sent@ == old(dst).sent@.push(f),
     //@spec         }),
